@@ -550,6 +550,16 @@ def f6_orientation(ck):
     ck.req(kinds == {"init", "piece", "digit"}, "F6.cursor", "Board::try_parse", bp.where(), "cursor updates are %s" % sorted(kinds))
 
 
+def f7_counter_types(ck):
+    """F7.types / F7.parse on their own (shared with C02: a narrower counter stops counting in long games)."""
+    clock = ck.adt("weechess_core::state::Clock", "F7")
+    tys = {f["name"]: f["ty"] for f in clock["variants"][0]["fields"]}
+    ck.req(tys == {"halfmove_clock": "usize", "fullmove_number": "usize"}, "F7.types", "Clock", "", "Clock fields are %s" % tys)
+    rd = ck.body(READER, "F7")
+    parses = [t for bb, t in live_calls(rd) if callee_name(t).endswith("<impl str>::parse")]
+    ck.req(len(parses) == 2 and all(t.get("generics", [""])[0] == "usize" for t in parses), "F7.parse", "reader", rd.where(), "counters are parsed as %s" % [t.get("generics") for t in parses])
+
+
 def f7_f8_counters_and_rejections(ck):
     prog = ck.prog
     clock = ck.adt("weechess_core::state::Clock", "F7")
